@@ -95,13 +95,16 @@ impl TableDef {
         self.cols.iter().position(|c| c.name == name)
     }
     pub fn relation(&self) -> Relation {
+        self.relation_named("")
+    }
+    pub fn relation_named(&self, prefix: &str) -> Relation {
         let schema: Schema = self
             .cols
             .iter()
             .map(|c| Field::new(c.name.clone(), c.ty.clone(), c.constraint.clone()))
             .collect();
         Relation::Table(Table::new(
-            self.name.clone(),
+            format!("{}{}", prefix, self.name),
             vec![self.name.clone()].into(),
             schema,
             dt::Integer::from_interval(self.size.0, self.size.1),
@@ -122,6 +125,9 @@ impl TableDef {
 #[derive(Clone, Debug)]
 pub struct Catalog {
     pub tables: Vec<TableDef>,
+    /// prefix of the Relation names of the tables: with a non-empty prefix the name of a table
+    /// relation differs from its path / key in the hierarchy (and from its key in the privacy unit)
+    pub rel_prefix: String,
 }
 
 impl Catalog {
@@ -134,7 +140,7 @@ impl Catalog {
     pub fn relations(&self) -> Hierarchy<Arc<Relation>> {
         self.tables
             .iter()
-            .map(|t| (vec![t.name.clone()], Arc::new(t.relation())))
+            .map(|t| (vec![t.name.clone()], Arc::new(t.relation_named(&self.rel_prefix))))
             .collect()
     }
     pub fn load(&self, db: &Db) -> Result<(), String> {
@@ -309,7 +315,7 @@ pub fn strip_some(v: &Value) -> Value {
 /// 2..4 tables t0.. with an id column, a foreign-key shaped column to the previous table and typed columns
 pub fn gen_generic(r: &mut Rng, max_rows: usize) -> Catalog {
     let nt = 2 + r.usize(3);
-    let mut cat = Catalog { tables: vec![] };
+    let mut cat = Catalog { tables: vec![], rel_prefix: String::new() };
     for ti in 0..nt {
         let name = format!("t{}", ti);
         let mut cols: Vec<ColDef> = vec![];
@@ -506,7 +512,8 @@ pub fn gen_dp_world(r: &mut Rng, o: &DpWorldOptions) -> DpWorld {
         ColDef::new("x", DataType::float_interval(-10.0, 10.0)),
         ColDef::new("y", nullable(r, DataType::integer_interval(0, 20))),
     ];
-    let mut cat = Catalog { tables: vec![] };
+    // in half of the worlds the Relation name of a table differs from its key in the hierarchy
+    let mut cat = Catalog { tables: vec![], rel_prefix: if r.bool() { "tb_".to_string() } else { String::new() } };
     // users
     let mut users = TableDef { name: "users".into(), cols: users_cols, size: (0, 10000), rows: vec![] };
     {
